@@ -1130,6 +1130,34 @@ func runCallMarks(rr *RuleRun) {
 					}
 				}
 			}
+			// … and the loop itself runs whenever there are such arguments: a condition around the loop may only ask
+			// whether the parameter exists or whether there are arguments at all
+			for p := c.Parent(l.loop); p != nil && p != ast.Node(fd.Body) && badCond == ""; p = c.Parent(p) {
+				ifs, ok := p.(*ast.IfStmt)
+				if !ok || !(ifs.Body.Pos() <= l.loop.Pos() && l.loop.End() <= ifs.Body.End()) {
+					continue
+				}
+				for _, term := range splitAnd(ifs.Cond) {
+					t := ast.Unparen(term)
+					okTerm := false
+					if be, ok := t.(*ast.BinaryExpr); ok {
+						for _, side := range []ast.Expr{be.X, be.Y} {
+							if se, ok := ast.Unparen(side).(*ast.SelectorExpr); ok && (se.Sel.Name == "VarParam" || se.Sel.Name == "Params") {
+								okTerm = true
+							}
+							if cl, ok := ast.Unparen(side).(*ast.CallExpr); ok && isBuiltin(info, cl, "len") {
+								okTerm = true
+							}
+							if id, ok := ast.Unparen(side).(*ast.Ident); ok && id.Name == "nil" {
+								okTerm = true // is there a slice of such arguments at all
+							}
+						}
+					}
+					if !okTerm {
+						badCond = exprStr(term)
+					}
+				}
+			}
 			if badCond != "" {
 				rr.Violation(key+"/condition", dc.Pos(), "the deep unmark of an argument whose parameter does not allow marks is additionally conditioned on '"+badCond+"': arguments for which that is false reach the callbacks with their (nested) marks")
 				continue
